@@ -46,6 +46,9 @@ def per_state(spec, seq, w):
     if MODE == "C07":
         w_b, _ = engine_g.build(spec, seq, validate=False)
     ev, nt, viols = trav.evaluate(spec, seq, w, CFG[_cfgname], MODE, w_b)
+    if MODE == "C06" and CFG[_cfgname]["universes"] != "none-only" and w.l:
+        ev2, nt2, viols2 = trav.edit_leg(spec, seq, w, CFG[_cfgname])
+        ev, nt, viols = ev + ev2, nt + nt2, viols + viols2
     sq = [list(o) for o in seq]
     return ev, nt, [(fp, {"seq": sq, "space": _plain(spec), "cfg": _cfgname, "case": case})
                     for fp, case in viols], None
@@ -57,6 +60,15 @@ def replay(rec, verbose=False, mode=None):
     seq = [tuple(o) for o in rec["seq"]]
     w, ok = engine_g.build(spec, seq)
     w_b = engine_g.build(spec, seq, validate=False)[0] if mode == "C07" else None
+    if rec["case"][0] == "edit":
+        ev, nt, viols = trav.edit_leg(spec, seq, w, dict(CFG[rec["cfg"]], dirs=(rec["case"][2],)))
+        hits = [fp for fp, case in viols if case == rec["case"]]
+        if verbose:
+            print("  graph ops:", seq)
+            print("  caching on; universe of all vertices; case (traversal, direction, side of the membership "
+                  "change, vertex taken out, phase, start):", rec["case"][1:])
+            print("  verdict:", hits)
+        return bool(hits)
     tname, s, uname, dn, un, vn, rn = rec["case"]
     cfg = dict(CFG[rec["cfg"]])
     cfg.update(dirs=(dn,), unks=(un,), via=(vn,), res=(rn,), res_with_via=(rn,))
@@ -86,6 +98,8 @@ def run(tier, seed, log, prop=PROP, mode=MODE, rule=None):
     rep.coverage = engine_g.merge_coverage(results, rule or RULE)
     rep.assumptions = [
         "caching off; ends are vertices; start is a member of the universe (or universe None)",
+        "membership-edit leg (C06 only, spaces with universes): caching ON, universe of all vertices, one member "
+        "taken out and put back from either side, all three traversals from every start in each phase",
         "reachability and order oracles are driven by the real neighbors() (as the property states)",
         "termination guard: more than 100*(|V|+|E|+1) neighbour expansions or yielded elements is reported "
         "as non-termination",
